@@ -55,6 +55,8 @@ type Runner struct {
 	Rec *Scenario
 
 	// per-history facts usable as non-triviality signals
+	// LastResponse is the response of the most recent Deliver
+	LastResponse abci.ResponseDeliverTx
 	AcceptedTx   int
 	RejectedRun  int // rejected after signature/nonce checks
 	AbsencesSeen int
@@ -264,6 +266,7 @@ func (r *Runner) Deliver(m *TxMeta) bool {
 		r.Rec.RecTx(m.Raw)
 	}
 	resp, ok := r.N.DeliverTx(m.Raw)
+	r.LastResponse = resp
 	for _, mn := range r.Mirrors {
 		mn.DeliverTx(m.Raw)
 		if !r.sameTail(mn) {
@@ -279,6 +282,16 @@ func (r *Runner) Deliver(m *TxMeta) bool {
 		r.AcceptedTx++
 		r.KindsOK[m.Kind]++
 		r.G.Accepted = append(r.G.Accepted, m.Raw)
+		if !m.Multisig && len(m.Signers) == 1 {
+			if d, err := DecodeTx(m.Raw); err == nil && d.SignatureType == 1 {
+				if r.G.SigsBy == nil {
+					r.G.SigsBy = map[types.Address][][]byte{}
+				}
+				if l := r.G.SigsBy[m.Sender]; len(l) < 8 {
+					r.G.SigsBy[m.Sender] = append(l, append([]byte(nil), d.SignatureData...))
+				}
+			}
+		}
 	} else {
 		r.KindsFail[m.Kind]++
 		r.KindsFail[fmt.Sprintf("%s/%d", m.Kind, resp.Code)]++
